@@ -176,6 +176,10 @@ pub struct Expected {
 
 fn sub_candidates(a: &RefAuto, p: &str, probes: &Probes) -> Expected {
     let mut e = Expected::default();
+    // candidates from points where part of an item is typed, and from the point(s) where the
+    // whole prefix is consumed
+    let mut partial: BTreeSet<String> = BTreeSet::new();
+    let mut consumed: BTreeSet<String> = BTreeSet::new();
     for (set, i) in sub_walk(a, p, probes) {
         let m = &p[..i];
         let r = &p[i..];
@@ -203,14 +207,24 @@ fn sub_candidates(a: &RefAuto, p: &str, probes: &Probes) -> Expected {
                 // the typed text itself (an item typed completely) may be offered or not
                 if x == p {
                     e.may.insert(x);
+                } else if r.is_empty() {
+                    consumed.insert(x);
                 } else {
-                    e.must.insert(x);
+                    partial.insert(x);
                 }
             }
         }
         if r.is_empty() && i > 0 && a.accepting(&set) {
             e.may.insert(p.to_string());
         }
+    }
+    if partial.is_empty() {
+        e.must.extend(consumed);
+    } else {
+        // the typed text ends an item AND is the beginning of a longer one (overlapping values):
+        // the values extending it are prescribed, what could follow the shorter value is optional
+        e.must.extend(partial);
+        e.may.extend(consumed);
     }
     e
 }
@@ -281,3 +295,157 @@ pub fn strip_wordbreaks(cand: &str, prefix: &str, wordbreaks: &str) -> String {
 }
 
 pub const DEFAULT_WORDBREAKS: &str = " \t\n\"'@><=;|&(:";
+
+
+/// The external commands the completion phase runs at a state for the typed prefix `p`, in the
+/// documented shape (command text, $1, $2): at top level $1 = p, $2 = ""; inside a word $1 = the
+/// part of p not yet consumed, $2 = the consumed part.  Levels up to and including the first one
+/// that yields a candidate.  Returns (required, allowed); None = the tolerance of R7 makes the
+/// winning level undetermined.
+pub fn completion_probe_calls(a: &RefAuto, set: &StateSet, p: &str, probes: &Probes) -> Option<(BTreeSet<(String, String, String)>, BTreeSet<(String, String, String)>)> {
+    let edges = a.out_edges(set);
+    let mut levels: BTreeSet<usize> = BTreeSet::new();
+    for (l, _) in &edges {
+        if let Some(lv) = a.labels[*l].level() {
+            levels.insert(lv);
+        }
+    }
+    let mut required: BTreeSet<(String, String, String)> = BTreeSet::new();
+    let mut allowed: BTreeSet<(String, String, String)> = BTreeSet::new();
+    for lv in levels {
+        let mut matched = false;
+        let mut tolerated_only = false;
+        for (l, _) in &edges {
+            match &a.labels[*l] {
+                RLabel::Lit { text, level, .. } if *level == lv => {
+                    if text.starts_with(p) {
+                        matched = true;
+                    }
+                }
+                RLabel::Cmd { text, level, .. } if *level == lv => {
+                    required.insert((text.clone(), p.to_string(), String::new()));
+                    if probes.candidates(text).iter().any(|c| c.starts_with(p)) {
+                        matched = true;
+                    }
+                }
+                RLabel::Sub { auto, level } if *level == lv => {
+                    let pts = sub_walk(auto, p, probes);
+                    // every command expected at a point of the walk may run there
+                    let mut proper: Vec<usize> = vec![];
+                    for (k, (sset, i)) in pts.iter().enumerate() {
+                        let (m, r) = (&p[..*i], &p[*i..]);
+                        let mut has_proper = false;
+                        for (sl, _) in auto.out_edges(sset) {
+                            match &auto.labels[sl] {
+                                RLabel::Cmd { text, .. } => {
+                                    allowed.insert((text.clone(), r.to_string(), m.to_string()));
+                                    if probes.candidates(text).iter().any(|c| c.starts_with(r) && c != r) {
+                                        has_proper = true;
+                                    }
+                                }
+                                RLabel::Lit { text, .. } => {
+                                    if text.starts_with(r) && text != r {
+                                        has_proper = true;
+                                    }
+                                }
+                                _ => {}
+                            }
+                        }
+                        if has_proper && !r.is_empty() {
+                            proper.push(k);
+                        }
+                    }
+                    // the point where the emitted matcher stops: the unique point where the rest
+                    // is the beginning of a longer item, else the farthest point
+                    let frontier: Option<&(StateSet, usize)> = match proper.len() {
+                        0 => {
+                            let maxi = pts.iter().map(|(_, i)| *i).max().unwrap_or(0);
+                            let far: Vec<&(StateSet, usize)> = pts.iter().filter(|(_, i)| *i == maxi).collect();
+                            if far.len() == 1 { Some(far[0]) } else { None }
+                        }
+                        1 => Some(&pts[proper[0]]),
+                        _ => None,
+                    };
+                    if let Some((sset, i)) = frontier {
+                        let (m, r) = (&p[..*i], &p[*i..]);
+                        let sub_edges = auto.out_edges(sset);
+                        let mut sub_levels: BTreeSet<usize> = BTreeSet::new();
+                        for (sl, _) in &sub_edges {
+                            if let Some(x) = auto.labels[*sl].level() {
+                                sub_levels.insert(x);
+                            }
+                        }
+                        for slv in sub_levels {
+                            let mut sub_matched = false;
+                            for (sl, _) in &sub_edges {
+                                match &auto.labels[*sl] {
+                                    RLabel::Lit { text, level, .. } if *level == slv => {
+                                        if text.starts_with(r) {
+                                            sub_matched = true;
+                                        }
+                                    }
+                                    RLabel::Cmd { text, level, .. } if *level == slv => {
+                                        required.insert((text.clone(), r.to_string(), m.to_string()));
+                                        if probes.candidates(text).iter().any(|c| c.starts_with(r)) {
+                                            sub_matched = true;
+                                        }
+                                    }
+                                    _ => {}
+                                }
+                            }
+                            if sub_matched {
+                                break;
+                            }
+                        }
+                    }
+                    let e = sub_candidates(auto, p, probes);
+                    if !e.must.is_empty() {
+                        matched = true;
+                    } else if !e.may.is_empty() {
+                        tolerated_only = true;
+                    }
+                }
+                _ => {}
+            }
+        }
+        if matched {
+            return Some((required, allowed));
+        }
+        if tolerated_only {
+            return None;
+        }
+    }
+    Some((required, allowed))
+}
+
+/// all (command, $1, $2) invocations that matching an earlier complete word `w` at `set` may
+/// legitimately perform
+pub fn matching_probe_calls_allowed(a: &RefAuto, set: &StateSet, w: &str, probes: &Probes, call: &(String, String, String)) -> bool {
+    for (l, _) in a.out_edges(set) {
+        match &a.labels[l] {
+            RLabel::Cmd { text, .. } => {
+                if *text == call.0 && call.1.is_empty() && call.2.is_empty() {
+                    return true;
+                }
+            }
+            RLabel::Sub { auto, .. } => {
+                // inside a word: $2 = consumed prefix, $1 = rest, the command expected there
+                if format!("{}{}", call.2, call.1) == w {
+                    for (sset, i) in sub_walk(auto, w, probes) {
+                        if i == call.2.len() {
+                            for (sl, _) in auto.out_edges(&sset) {
+                                if let RLabel::Cmd { text, .. } = &auto.labels[sl] {
+                                    if *text == call.0 {
+                                        return true;
+                                    }
+                                }
+                            }
+                        }
+                    }
+                }
+            }
+            _ => {}
+        }
+    }
+    false
+}
